@@ -1,2 +1,27 @@
-From BFS Require Import Backup.History.
-Example placeholder_C09 : True. Proof. exact I. Qed.
+(** C09 — every error Rollback returns is ErrRollbackFailed.  (The other half
+    - never nil while an entry is unrestored, under every single fault - is
+    decided by exhaustive fault enumeration against the code and the model,
+    see the check.) *)
+From stdpp Require Import gmap.
+From BFS Require Import Backup.History Proofs.RollbackFacts.
+
+Theorem C09_error_class :
+  forall base backup w e w', b_rollback base backup w = (MErr e, w') -> e = ERollback.
+Proof. exact rollback_err_class. Qed.
+Print Assumptions C09_error_class.
+
+(** restoreFile / restoreSymlink propagate every failure of the calls they
+    depend on, except "the copy is not there" *)
+Theorem C09_restore_file_propagates :
+  forall base backup name info w e w',
+  a_open backup name w = (MErr e, w') -> is_not_found e = false ->
+  exists e' w'', restore_file base backup name info w = (MErr e', w'').
+Proof. exact restore_file_open_error. Qed.
+Print Assumptions C09_restore_file_propagates.
+
+Theorem C09_restore_symlink_propagates :
+  forall base backup name info w e w',
+  a_lstat backup name w = (MErr e, w') -> is_not_found e = false ->
+  exists e' w'', restore_symlink base backup name info w = (MErr e', w'').
+Proof. exact restore_symlink_lstat_error. Qed.
+Print Assumptions C09_restore_symlink_propagates.
